@@ -12,15 +12,10 @@ import (
 	"context"
 	"errors"
 	"fmt"
-	"os"
-	"path/filepath"
-	"regexp"
 	"runtime"
 	"sort"
-	"strconv"
 	"strings"
 	"sync"
-	"sync/atomic"
 	"testing"
 	"time"
 
@@ -33,8 +28,6 @@ import (
 	"github.com/projectcalico/calico/apiserver/pkg/registry/projectcalico/authorizer"
 	"github.com/projectcalico/calico/verifkit/ev"
 )
-
-const c34KnownSig = "shared-err-race"
 
 const (
 	c34GetTier = iota
@@ -330,216 +323,30 @@ func c34Property(t *testing.T, unit string) {
 
 func c34RaceBuild() bool { return c34RaceEnabled }
 
-// ---- race-detector reports ----
-//
-// The -race unit runs with GORACE="log_path=racelog exitcode=0": reports go to the file
-// racelog.<pid> in the scratch cwd, where the harness can read and classify them.  The verdict
-// itself is the testing package's: any report during a test function fails that function
-// ("race detected during execution of test").
-
-func c34RaceLogPath() string {
-	for _, f := range strings.Fields(os.Getenv("GORACE")) {
-		if strings.HasPrefix(f, "log_path=") {
-			return strings.TrimPrefix(f, "log_path=") + "." + strconv.Itoa(os.Getpid())
-		}
-	}
-	return ""
-}
-
-type c34RaceReport struct {
-	Text  string
-	Funcs [2]string // top frame function of the two racing accesses
-	Files [2]string
-	Lines [2]int
-}
-
-var (
-	c34AccessRe = regexp.MustCompile(`^(Read|Write|Previous read|Previous write) at 0x[0-9a-f]+ by `)
-	c34FileRe   = regexp.MustCompile(`^\s+(/\S+\.go):(\d+)`)
-)
-
-func c34ReadRaceReports() []c34RaceReport {
-	p := c34RaceLogPath()
-	if p == "" {
-		return nil
-	}
-	data, err := os.ReadFile(p)
-	if err != nil {
-		return nil
-	}
-	var out []c34RaceReport
-	for _, blk := range strings.Split(string(data), "==================") {
-		if !strings.Contains(blk, "WARNING: DATA RACE") {
-			continue
-		}
-		r := c34RaceReport{Text: strings.TrimSpace(blk)}
-		lines := strings.Split(blk, "\n")
-		k := 0
-		for i := 0; i < len(lines) && k < 2; i++ {
-			if c34AccessRe.MatchString(lines[i]) && i+2 < len(lines) {
-				r.Funcs[k] = strings.TrimSpace(lines[i+1])
-				if m := c34FileRe.FindStringSubmatch(lines[i+2]); m != nil {
-					r.Files[k] = m[1]
-					r.Lines[k], _ = strconv.Atoi(m[2])
-				}
-				k++
-			}
-		}
-		out = append(out, r)
-	}
-	return out
-}
-
-var c34ClosureRe = regexp.MustCompile(`authorizer\.\(\*authorizer\)\.AuthorizeTierOperation\.func\d+\(\)$`)
-var c34ErrWordRe = regexp.MustCompile(`\berr\b`)
-
-// c34IsKnownRace: the signature of the finding "shared-err-race" — both racing accesses are made
-// by two different goroutine closures of AuthorizeTierOperation on statements that mention the
-// enclosing function's `err` variable.
-func c34IsKnownRace(r c34RaceReport) bool {
-	if r.Funcs[0] == r.Funcs[1] {
-		return false
-	}
-	for k := 0; k < 2; k++ {
-		if !c34ClosureRe.MatchString(r.Funcs[k]) || !strings.HasSuffix(r.Files[k], "/authorizer/authorizer.go") {
-			return false
-		}
-		src, err := os.ReadFile(r.Files[k])
-		if err != nil {
-			return false
-		}
-		ls := strings.Split(string(src), "\n")
-		if r.Lines[k] < 1 || r.Lines[k] > len(ls) || !c34ErrWordRe.MatchString(ls[r.Lines[k]-1]) {
-			return false
-		}
-	}
-	return true
-}
-
-func c34ReportKey(r c34RaceReport) string {
-	return fmt.Sprintf("%s:%d|%s:%d", filepath.Base(r.Files[0]), r.Lines[0], filepath.Base(r.Files[1]), r.Lines[1])
-}
-
-// c34WarmUp is only used while the finding "shared-err-race" is listed as known.  Every call of
-// AuthorizeTierOperation then races on `err`, so a -race search could never pass.  The race
-// detector reports each pair of racing stacks once per process; the warm-up provokes all
-// variants of the known race before any test function starts (reports outside a test function
-// are not attributed to one), checks that every report has exactly the known signature, and
-// leaves the detector armed for anything else.
-func c34WarmUp() (ok bool, msg string) {
-	seen := map[string]bool{}
-	quiet := 0
-	perms := [][]int{{0, 1, 2}, {0, 2, 1}, {1, 0, 2}, {1, 2, 0}, {2, 0, 1}, {2, 1, 0}}
-	for batch := 0; batch < 400 && quiet < 40; batch++ {
-		for _, procs := range []int{1, 4} {
-			runtime.GOMAXPROCS(procs)
-			for pi, perm := range perms {
-				for errMask := 0; errMask < 8; errMask += 7 { // no check errs / every check errs
-					c := &c34Case{
-						Req:    c34Request{Resource: "networkpolicies", Namespace: "default", Verb: "get", Name: "default.pol", Tier: "default", User: "alice"},
-						Finish: perm, Procs: procs,
-					}
-					if (batch+pi)%3 == 0 {
-						c.Finish = nil
-					}
-					for i := range c.Outcomes {
-						c.Outcomes[i] = c34Outcome{k8sauth.DecisionNoOpinion, errMask != 0}
-						c.Steps[i].Yields = (batch + i + pi) % 3
-					}
-					if m := c34RunOnce(c); m != "" {
-						return false, m
-					}
-				}
-			}
-		}
-		grew := false
-		for _, r := range c34ReadRaceReports() {
-			if !c34IsKnownRace(r) {
-				return false, "a data race other than the known shared-err race was reported:\n" + r.Text
-			}
-			if k := c34ReportKey(r); !seen[k] {
-				seen[k] = true
-				grew = true
-			}
-		}
-		if grew {
-			quiet = 0
-		} else {
-			quiet++
-		}
-	}
-	var keys []string
-	for k := range seen {
-		keys = append(keys, k)
-	}
-	sort.Strings(keys)
-	return true, fmt.Sprintf("%d variants of the known race provoked before the search: %v", len(keys), keys)
-}
-
-var c34WarmUpNote string
-
-func TestMain(m *testing.M) {
+// TestVerifC34KnownSharedErrRace is the regression test for the finding "shared-err-race" (fixed
+// in /repo: the three concurrent checks used to assign and read the enclosing function's `err`
+// variable, a data race on every call).  Built with -race it fails ("race detected during
+// execution of test") if that race, or any other between the three checks, comes back.  Without
+// -race it cannot observe anything and is skipped.  It is declared before the generated search
+// because the race detector reports each pair of racing stacks only once per process.
+func TestVerifC34KnownSharedErrRace(t *testing.T) {
 	ev.Quiet()
-	if c34RaceBuild() && ev.Known(c34KnownSig) {
-		prev := runtime.GOMAXPROCS(0)
-		ok, msg := c34WarmUp()
-		runtime.GOMAXPROCS(prev)
-		if !ok {
-			fmt.Println("--- FAIL: C34 warm-up: " + msg)
-			os.Exit(1)
-		}
-		c34WarmUpNote = msg
+	if !c34RaceBuild() {
+		t.Skip("needs the race detector")
 	}
-	code := m.Run()
-	if code != 0 && c34WarmUpNote != "" && !c34AnyFailed.Load() {
-		// No test function failed and no report appeared during one; the testing package
-		// still ends with "race detected outside of test execution" because of the reports the
-		// warm-up provoked on purpose.  If every report in the log has the known signature,
-		// that is the expected outcome while the finding is listed.
-		allKnown := true
-		for _, r := range c34ReadRaceReports() {
-			if !c34IsKnownRace(r) {
-				allKnown = false
+	for _, perm := range [][]int{nil, {0, 1, 2}, {2, 1, 0}, {1, 0, 2}} {
+		for _, withErr := range []bool{false, true} {
+			c := &c34Case{
+				Req:      c34Request{Resource: "networkpolicies", Namespace: "default", Verb: "get", Name: "default.pol", Tier: "default", User: "alice"},
+				Outcomes: [3]c34Outcome{{k8sauth.DecisionAllow, false}, {k8sauth.DecisionNoOpinion, withErr}, {k8sauth.DecisionAllow, false}},
+				Finish:   perm,
+			}
+			for i := 0; i < 10; i++ {
+				if msg := c34RunOnce(c); msg != "" {
+					t.Fatalf("%s", msg)
+				}
 			}
 		}
-		if allKnown {
-			fmt.Println("C34: every race report in this process is the known shared-err race provoked by the warm-up; no test function failed: exit status 0")
-			code = 0
-		}
-	}
-	os.Exit(code)
-}
-
-var c34AnyFailed atomic.Bool
-
-// c34TrackFailure must be deferred (after c34ExplainRaces is deferred, so that it runs first or
-// second does not matter) by every test function: it records whether the function failed or
-// the race detector reported something while it ran.
-func c34TrackFailure(t *testing.T, before int) {
-	if t.Failed() || len(c34ReadRaceReports()) > before {
-		c34AnyFailed.Store(true)
-	}
-}
-
-// c34ExplainRaces is called at the end of a test function of the -race unit: if the race
-// detector reported anything since `before`, the reports are printed (they went to the log
-// file, not to the test output).  While the known finding is listed, a report that has exactly
-// the known signature means the warm-up missed a variant: that is a harness limitation, not a
-// new violation.
-func c34ExplainRaces(t *testing.T, before int) {
-	reps := c34ReadRaceReports()
-	if len(reps) <= before {
-		return
-	}
-	onlyKnown := true
-	for _, r := range reps[before:] {
-		t.Logf("race detector report:\n%s", r.Text)
-		if !c34IsKnownRace(r) {
-			onlyKnown = false
-		}
-	}
-	if onlyKnown && ev.Known(c34KnownSig) {
-		t.Logf("HARNESS-GAP: the race detector reported a variant of the known shared-err race that the warm-up had not provoked (%s)", c34WarmUpNote)
 	}
 }
 
@@ -547,46 +354,8 @@ func c34ExplainRaces(t *testing.T, before int) {
 // detector fails the test by itself if any of the executed interleavings races.
 func TestVerifC34Authorize(t *testing.T) {
 	unit := "authz"
-	if !c34RaceBuild() {
-		defer c34TrackFailure(t, 0)
-	} else {
+	if c34RaceBuild() {
 		unit = "authz-race"
-		before := len(c34ReadRaceReports())
-		defer c34ExplainRaces(t, before)
-		defer c34TrackFailure(t, before)
-		if c34WarmUpNote != "" {
-			t.Log(c34WarmUpNote)
-		}
 	}
 	c34Property(t, unit)
-}
-
-// TestVerifC34KnownSharedErrRace confirms the finding "shared-err-race": the three concurrent
-// checks assign (and read) one shared error variable.  Built with -race it fails ("race
-// detected during execution of test") while that race exists and passes once each goroutine
-// uses its own variable.  Without -race it cannot observe anything and is skipped.  It must run
-// in a fresh process (the driver's confirm run does that): the race detector reports each pair
-// of racing stacks only once per process.
-func TestVerifC34KnownSharedErrRace(t *testing.T) {
-	if !c34RaceBuild() {
-		t.Skip("needs the race detector")
-	}
-	if ev.Known(c34KnownSig) {
-		t.Skip("listed as a known finding; the driver confirms it in a separate run")
-	}
-	before := len(c34ReadRaceReports())
-	defer c34ExplainRaces(t, before)
-	defer c34TrackFailure(t, before)
-	for _, perm := range [][]int{nil, {0, 1, 2}, {2, 1, 0}, {1, 0, 2}} {
-		c := &c34Case{
-			Req:      c34Request{Resource: "networkpolicies", Namespace: "default", Verb: "get", Name: "default.pol", Tier: "default", User: "alice"},
-			Outcomes: [3]c34Outcome{{k8sauth.DecisionAllow, false}, {k8sauth.DecisionAllow, false}, {k8sauth.DecisionAllow, false}},
-			Finish:   perm,
-		}
-		for i := 0; i < 10; i++ {
-			if msg := c34RunOnce(c); msg != "" {
-				t.Fatalf("%s", msg)
-			}
-		}
-	}
 }
